@@ -33,24 +33,29 @@ public:
         bool desired{};
         for (;;) {
             for (size_t i = 1;; ++i) {
+                YAKUSHIMA_VERIF_HOOK(YAKUSHIMA_VERIF_LOAD, &root_lock_);
                 expected = root_lock_.load(std::memory_order_acquire);
                 if (expected) {
                     if (i >= 10) { break; }
+                    YAKUSHIMA_VERIF_HOOK(YAKUSHIMA_VERIF_SPIN, &root_lock_);
                     _mm_pause();
                     continue;
                 }
                 desired = true;
+                YAKUSHIMA_VERIF_HOOK(YAKUSHIMA_VERIF_STORE, &root_lock_);
                 if (root_lock_.compare_exchange_weak(expected, desired,
                                                 std::memory_order_acq_rel,
                                                 std::memory_order_acquire)) {
                     return;
                 }
             }
+            YAKUSHIMA_VERIF_HOOK(YAKUSHIMA_VERIF_SPIN, &root_lock_);
             std::this_thread::sleep_for(std::chrono::microseconds(1));
         }
     }
 
     void root_unlock() {
+        YAKUSHIMA_VERIF_HOOK(YAKUSHIMA_VERIF_STORE, &root_lock_);
         root_lock_.store(false, std::memory_order_release);
     }
 
